@@ -441,7 +441,8 @@ def run_job(job, tier, inc_extra, keep_dir=None):
             res.first_failed = first
             if keep_dir and not os.environ.get('VERIF_NOTRACE'):
                 os.makedirs(keep_dir, exist_ok=True)
-                rc2, out2, _ = run(cb + ['--trace', '--property', first['property']], tmo, mem_gb=job.mem_gb * 2)
+                # the trace is wanted as JSON even when the verdict run used the text UI (the JSON UI of cbmc 6.11 dies on some programs: then there is simply no replay input)
+                rc2, out2, _ = run(cb + ([] if '--json-ui' in cb else ['--json-ui']) + ['--trace', '--property', first['property']], tmo, mem_gb=job.mem_gb * 2)
                 res.trace_json = out2
                 plain = []
                 r2, m2, s2 = parse_cbmc_json(out2) if rc2 != -999 else (None, [], None)
